@@ -210,6 +210,11 @@ func Files() []File {
 			Nested: []M{{Name: "Item", Fields: []F{{Name: "id", Num: 1, Kind: "int32", Card: "req"}}}}},
 		{Name: "Other", Fields: []F{{Name: "must", Num: 1, Kind: "bool", Card: "req"}}},
 	}, nil, nil)
+	// upper-case letters in the .proto file name / directory: only the message part of a per-message file name is lower-cased
+	atom("a3UpperCase", "proto3", []string{"upper-case-file-name"}, nil, []M{
+		{Name: "SensorEvent", Fields: []F{{Name: "id", Num: 1, Kind: "int32", Card: "imp"}, {Name: "batch", Num: 2, Kind: "message", Card: "imp", Type: "Batch"}}},
+		{Name: "Batch", Fields: []F{{Name: "n", Num: 1, Kind: "int64", Card: "imp"}}},
+	}, nil, nil)
 	// field numbers at which the tag key grows by a byte, and the largest one
 	atom("a3fnum", "proto3", []string{"field-number-boundaries"}, nil, []M{
 		{Name: "Leaf", Fields: []F{{Name: "a", Num: 1, Kind: "int32", Card: "imp"}, {Name: "b", Num: 2048, Kind: "string", Card: "imp"}}},
